@@ -1211,6 +1211,34 @@ package decimal
 //@   hint[after:decToNat#1] bind(gN, V2(result))
 //@   tags safety C04,C14
 
+// Rat: always Exact for finite values and zero, nil for infinities; the numerator handed to
+// math/big is the mantissa (shifted up for an integer), the denominator 10^(digits - exp).
+//@ extern (*math/big.Rat).Denom (z)
+//@   ensures[ret] result != nil
+//@ extern (*math/big.Rat).Num (z)
+//@   ensures[ret] result != nil
+//@ extern (*math/big.Rat).Quo (z, x, y)
+//@   ensures[ret] result == z
+//@ extern (*math/big.Rat).Neg (z, x)
+//@   ensures[ret] result == z
+//@ extern (*math/big.Rat).SetInt64 (z, x)
+//@   ensures[ret] result == z
+
+//@ func (x *Decimal) Rat(z *big.Rat) (*big.Rat, Accuracy)
+//@   nomerge
+//@   requires[wf] opnd(x) && (x.form == finite ==> len(x.mant) <= 10000000)
+//@   requires[size] x.form == finite ==> 0 - 1000000000 <= x.exp && x.exp <= 1000000000
+//@   ghost gN, gD
+//@   ensures[inf,C14] x.form == inf ==> result0 == nil && result1 == (x.neg ? 1 : 0 - 1)
+//@   ensures[exact,C14] x.form != inf ==> result0 != nil && result1 == 0
+//@   ensures[num,C14] x.form == finite ==> (x.exp >= 19*len(x.mant) ==> gN == V(x.mant)*p10(x.exp - 19*len(x.mant))) && (x.exp < 19*len(x.mant) ==> gN == V(x.mant) && gD == p10(19*len(x.mant) - x.exp))
+//@   ensures[operands,C09,C18] unchanged(x)
+//@   hint[after:decToNat#1] bind(gN, V2(result))
+//@   hint[after:decToNat#2] bind(gN, V2(result))
+//@   hint[after:decToNat#3] bind(gD, V2(result))
+//@   hint[after:decToNat#4] bind(gN, V2(result))
+//@   tags safety C04,C14
+
 // Uint64: truncation toward zero with saturation; gT is the integer part of |x|.
 //@ func (x *Decimal) Uint64() (uint64, Accuracy)
 //@   requires[wf] opnd(x)
